@@ -221,7 +221,7 @@ def undispatched(ops, snaps):
 def make_stream(name, cases, pred, describe, nontrivial):
     return Stream(name, "srv", cases, compare=compare,
                   monitor=lambda c, i, m: pred(c, i) is None,
-                  nontrivial=nontrivial, shrink=shrink_ops, describe=describe)
+                  nontrivial=nontrivial, shrink=shrink_ops, describe=describe, timeout=400)
 
 
 def shrink_ops(case):
@@ -246,3 +246,54 @@ def saturates(case, model_trace):
         return any(in_progress(w) >= L for sn in parse_trace(model_trace) if not sn.bad for w in sn.workers)
     except Exception:  # noqa: BLE001
         return False
+
+
+def c04_pred(case, trace):
+    """on the implementation's dispatch log, up to the first fault: (a) no dispatch targets a worker that already has L connections in
+    progress (checked for operations without a yield schedule, where the count is exact); (b) in a pure `A<tok>` call the targets are exactly
+    the first flagged workers in cyclic order from the rotation position (flags: previous snapshot, cleared when a worker reaches L)"""
+    W, L, K, ops = parse_case(case)
+    snaps = parse_trace(trace)
+    nf = first_fault_index(ops)
+    nxt = 0
+    prev = None
+    for k, sn in enumerate(snaps[:nf]):
+        if sn.bad or sn.err:
+            return "op %d: %s" % (k, sn.bad or sn.err)
+        ds = [(int(e[1:].split("/")[0]), int(e.split(">")[1])) for e in sn.events if e[0] == "D"]
+        op = ops[k]
+        if ds and prev is not None or ds:
+            counts = {w["g"]: in_progress(w) for w in (prev.workers if prev else [])} if prev else {g: 0 for g in range(W)}
+            flags = {g: (prev.bits[g] == "1") for g in range(W)} if prev else {g: True for g in range(W)}
+            exact = "{" not in op
+            pure_accept = exact and op[0] == "A"
+            for cid, g in ds:
+                if exact and counts.get(g, 0) >= L:
+                    return "op %d (%s): connection %d dispatched to worker %d which already had %d/%d in progress" % (k, op, cid, g, counts[g], L)
+                if pure_accept:
+                    exp = None
+                    for d in range(W):
+                        cand = (nxt + d) % W
+                        if flags.get(cand):
+                            exp = cand
+                            break
+                    if exp is not None and exp != g:
+                        return "op %d (%s): connection %d went to worker %d, round-robin over flagged workers from position %d expects %d" % (k, op, cid, g, nxt, exp)
+                counts[g] = counts.get(g, 0) + 1
+                if counts[g] >= L:
+                    flags[g] = False
+                nxt = (g + 1) % W
+        prev = sn
+    return None
+
+
+def avail_cases(ctx, bases):
+    """exhaustive (i, j, v) sweep of the availability bitset from several base states"""
+    cases = []
+    for base in bases:
+        pre = " ".join("s%d:1" % b for b in base)
+        for i in range(512):
+            for j in range(512):
+                for v in (0, 1):
+                    cases.append(("%s s%d:%d g%d a" % (pre, i, v, j)).strip())
+    return cases
